@@ -35,6 +35,7 @@ type convCell struct {
 	strides, pads, dil, kshape []int64
 	autoPad                    string
 	refuse                     bool // a configuration the library does not implement
+	f64                        bool // float64 operands (float32 otherwise)
 	bias                       bool
 }
 
@@ -57,6 +58,9 @@ func (cell convCell) String() string {
 	}
 	if cell.bias {
 		s += ", with bias"
+	}
+	if cell.f64 {
+		s += ", float64"
 	}
 	return s
 }
@@ -201,13 +205,20 @@ func (c *Ctx) convTable1() (known bool, bad string, cells int) {
 		{x: []int64{1, 2, 3, 3}, w: []int64{1, 2, 1, 1}, bias: true},                                    // and the 1x1 kernel with one sample
 		{x: []int64{1, 1, 2, 2, 2}, w: []int64{1, 1, 1, 1, 1}, refuse: true},                            // 3-D: not implemented, to be refused
 	}
+	// both admitted element types: the hand-picked geometries once more with float64 operands
+	for _, cell := range append([]convCell{}, list...) {
+		if !cell.refuse {
+			cell.f64 = true
+			list = append(list, cell)
+		}
+	}
 	list = append(list, convSweep(c.tier == "thorough")...)
 	ctor := c.registeredCtor(oi, "Conv")
 	if ctor == nil {
 		return false, "", 0
 	}
 	cov := newCover(oi.methods["Apply"])
-	cov.skip = map[*ssa.Function]bool{oi.methods["Init"]: true, ctor: true}
+	cov.skip = skipInitOnly(c, oi, ctor)
 	cov.pkgs = map[string]bool{pkgOpset13: true} // the broadcast helper's other branches are R36's subject
 	prep := func(cell convCell) (p *pinterp, recv pval, heap *pheap, mk func(prefix string, shape []int64) pval, panicked *string, ok bool) {
 		heap = st.heap.clone()
@@ -288,7 +299,16 @@ func (c *Ctx) convTable1() (known bool, bad string, cells int) {
 		if cell.bias {
 			inputs[2] = mk("b", []int64{cell.w[0]})
 		}
-		p.listsAreSlicesOf = nil
+		// what Dtype() answers and what a raw backing (Data()) of an operand is a slice of
+		elemT, dtName := types.Type(types.Typ[types.Float32]), "Float32"
+		if cell.f64 {
+			elemT, dtName = types.Typ[types.Float64], "Float64"
+		}
+		p.listsAreSlicesOf = elemT
+		p.contentType = elemT
+		if dt, ok := c.dtypeToken(dtName); ok {
+			p.contentDtype = dt
+		}
 		res, h := p.run(oi.methods["Apply"], []pval{recv, heap.alloc(inputs)}, 0, heap)
 		if *panicked != "" {
 			noteBad(fmt.Sprintf("Conv with %s panics: %s", cell, *panicked))
@@ -469,7 +489,9 @@ func ruleConvTable(c *Ctx, prop string) {
 	}
 	switch {
 	case !known:
-		c.note("R42", "R42:conv-table", site, "the provenance table cannot follow this code to one outcome per cell; the structural rules R11 decide")
+		// R11 decides the index plumbing (which axis an expression talks about); nothing else looks at the
+		// multiply-accumulate itself, so a Conv the table cannot follow is a Conv whose values are not established
+		c.undecided("R42", "R42:conv-table", site, "the provenance table cannot follow Conv to one outcome per geometry (a construct the walk does not model, or code no geometry reaches): that every output element is the direct convolution's sum of products is not established - the structural rules R11 decide the index plumbing only")
 	case bad != "":
 		c.violate("R42", "R42:conv-table", site, bad)
 	default:
@@ -637,4 +659,19 @@ func convSweep(thorough bool) []convCell {
 		}
 	}
 	return out
+}
+
+// skipInitOnly: the constructor, Init and what only they reach (attribute parsing is judged by R8 / R27 and the
+// tables of its own); what Apply reaches as well stays in.
+func skipInitOnly(c *Ctx, oi *opInfo, ctor *ssa.Function) map[*ssa.Function]bool {
+	skip := map[*ssa.Function]bool{}
+	fromApply := c.reachFrom([]*ssa.Function{oi.methods["Apply"]})
+	for f := range c.reachFrom([]*ssa.Function{oi.methods["Init"], ctor}) {
+		if !fromApply[f] {
+			skip[f] = true
+		}
+	}
+	skip[oi.methods["Init"]] = true
+	skip[ctor] = true
+	return skip
 }
